@@ -670,16 +670,15 @@ pub fn judge_c14(cx: &DeliveryCtx, out: &mut RunOut) {
     // The same from the request's side: a request whose only fault is one defect that a check
     // before key lookup must refuse (clean provenance, and the message as issued is accepted) never
     // reaches the provider — whatever the library makes of it in the end.
-    if let Expect::Refuse(Some(r)) = cx.provenance {
+    // By the statement: "only for requests that have already passed every structural,
+    // signed-header, freshness and scope check". Which requests those are is the reference's call
+    // (its first failing rule), provided the message as issued is accepted (baseline), i.e. the
+    // request's faults are the ones the network and the clock put there.
+    if let Verdict::Refuse(r) = cx.expected {
         let early = r.precedence().map(|p| p < prov_pos).unwrap_or(false);
-        if early && matches!(cx.expected, Verdict::Refuse(r2) if r2 == r) && !cx.body_failed && touched && baseline_ok(cx, out) {
-            out.violate("C14", "provider-untouched-by-defective-requests", format!("the request's only fault is a defect at {} (a check that comes before key lookup), yet the provider was consulted ({} calls) and the library says {}; {}", r.name(), calls, cx.out.short(), ctx_line(cx)));
+        if early && !cx.body_failed && touched && baseline_ok(cx, out) {
+            out.violate("C14", "provider-untouched-by-defective-requests", format!("the request fails the check {} (which comes before key lookup; t−now = {} ns), yet the provider was consulted ({} calls) and the library says {}; {}", r.name(), cx.msg.auth.instant_ns - cx.now_ns, calls, cx.out.short(), ctx_line(cx)));
         }
-    }
-    // … and a request that is well-formed but outside the freshness window (the reference's first
-    // failing rule is the window, so every earlier check passes) never reaches it either
-    if matches!(cx.expected, Verdict::Refuse(Rule::Expired | Rule::NotYetValid)) && !cx.body_failed && touched && baseline_ok(cx, out) {
-        out.violate("C14", "provider-untouched-by-defective-requests", format!("the request is outside the freshness window (t−now = {} ns), yet the provider was consulted ({} calls) and the library says {}; {}", cx.msg.auth.instant_ns - cx.now_ns, calls, cx.out.short(), ctx_line(cx)));
     }
     if !finished(cx) {
         return;
